@@ -85,7 +85,7 @@ def gen_ops(ctx):
         for c in p.combs:
             d = fl.sexp(c["dump"])
             lexical = "00" if fl.empty_alias(c["dump"]) else "11"
-            structural = "00" if fl.dep_named_fields(d) else "11"
+            structural = "11"
             add("wf " + c["dump"], "hypotheses:" + kind, path or text.decode("utf-8", "replace"), lexical + " " + structural)
     ctx.notes["parse_ops_excluded_category_layout"] = nskip
     # the reading side the theorems talk about: lexer on the sources and on Go's own output, parseTL2Type, TrimSpace
